@@ -299,8 +299,8 @@ def ungated(F, R, rule='B.C06.ungated', fn_filter=None):
             # ... and no exit of the function skips the update, unless the owner was just declared dead (mark_as_stopped):
             # an early return on "no data yet" / "nothing to do" placed above it freezes fades and scheduled starts
             marks = [x for x, t2 in b.calls() if (callee_path(t2) or '').endswith('::mark_as_stopped')]
-            from ..rules import must_pass
-            R.check(must_pass(b, [0], b.return_blocks(), [bb] + marks), rule, '%s|%s|every-path' % (b.path, fld.split('.')[-1]),
+            from ..rules import must_pass_f
+            R.check(must_pass_f(b, b.return_blocks(), [bb] + marks), rule, '%s|%s|every-path' % (b.path, fld.split('.')[-1]),
                     '%s can return without having updated %s (and without stopping): a fade or a scheduled start does not '
                     'advance on that path' % (b.path, fld), detail={'fn': b.path, 'parameter': fld}, where=b.where(bb))
     R.floor(rule, n, 8 if fn_filter is None else 2)
@@ -485,10 +485,14 @@ def finish(F, R):
         fixed = None
         for bb, desc, lab in p.decisions:
             _n, _a = parse_term(desc)
-            if _n == 'Le' and _a and len(_a) == 2 and 'as_secs_f64' in _a[0] and 'duration' in _a[0] and '.time' in _a[1]:   # time >= duration
-                ge = bool_label(lab)
-            if desc.startswith('discr(') and 'target' in desc and lab in ('Fixed', 'FromModulator', 'FromListenerDistance'):
+            tr = time_reached(desc, lab)
+            if tr is not None:
+                ge = tr
+            if desc.startswith('discr(') and lab in ('Fixed', 'FromModulator', 'FromListenerDistance') and ('target' in desc or desc.startswith('discr(_')):
                 fixed = (lab == 'Fixed')
+            elif desc.startswith('discr(_') and lab == 'otherwise' and fixed is None and any(l2 == 'Fixed' for _, d2, l2 in
+                                                                                             [x for q in prs for x in q.decisions if x[1] == desc]):
+                fixed = False       # the arm of `matches!(target, Value::Fixed(_))` that is not Fixed
         stores = [(bb, s) for bb in p.blocks for s in b.blocks[bb]['stmts'] if s['k'] == 'assign']
         st_state = [s for bb, s in stores if pretty_place(b, s['lhs']) == '(*self).state']
         st_stag = [s for bb, s in stores if pretty_place(b, s['lhs']) == '(*self).stagnant']
@@ -544,8 +548,11 @@ def finish(F, R):
             if p.end == 'return' and any(lab == 'Tweening' for _, _, lab in p.decisions):
                 nt += 1
                 r = str(p.ret)
-                good = r == 'std::option::Option::None' or (r.startswith('std::option::Option::<T>::map(value::Value::<T>::raw_value(') and 'as Tweening).target' in r.split('closure(')[0]
-                                                            and 'as Tweening).start' in r)
+                tgt = 'value::Value::<T>::raw_value(((*self).state as Tweening).target'
+                good = r == 'std::option::Option::None' \
+                    or (r.startswith('std::option::Option::<T>::map(' + tgt) and 'as Tweening).start' in r) \
+                    or ('::from_residual(' in r and tgt in r and 'interpolate' not in r) \
+                    or (r.startswith('std::option::Option::Some(tween::tweenable::Tweenable::interpolate(((*self).state as Tweening).start, ') and tgt in r)
                 if not good:
                     bad_t.append(r[:90])
         R.check(nt >= 1 and not bad_t, 'B.C06.finish', 'tweening-value', 'a tweening parameter can have the value %s: not the interpolation from its start value towards its target' % bad_t[:2],
@@ -583,6 +590,27 @@ def set_unconditional(F, R, rule='B.C06.set'):
                 'value while an earlier transition is still pending)' % path, detail={'state': d[:100]}, where=b.file)
 
 
+def time_reached(desc, lab):
+    """A path decision about the tween's time and its duration -> whether `time >= duration` holds on that edge (None if
+    the decision is about something else, or tests strictly).  `time >= d`, `d <= time` taken, or `time < d`, `d > time`
+    not taken."""
+    n_, a_ = parse_term(desc)
+    if n_ not in ('Le', 'Lt', 'Ge', 'Gt') or not a_ or len(a_) != 2:
+        return None
+    dur = [i for i, x in enumerate(a_) if 'as_secs_f64' in x and 'duration' in x]
+    if len(dur) != 1:
+        return None
+    rel = n_ if dur[0] == 1 else {'Le': 'Ge', 'Lt': 'Gt', 'Ge': 'Le', 'Gt': 'Lt'}[n_]     # time REL duration
+    bl = bool_label(lab)
+    if bl is None:
+        return None
+    if rel == 'Ge':
+        return bl
+    if rel == 'Lt':
+        return not bl
+    return None
+
+
 def timing_features(b):
     """Structural features of the duplicated tween-timing logic."""
     f = {}
@@ -612,6 +640,9 @@ def timing_features(b):
                 if 'as_secs_f64' in ra and 'as_secs_f64' not in rb:
                     op = {'Le': 'Ge', 'Lt': 'Gt', 'Ge': 'Le', 'Gt': 'Lt'}.get(op, op)   # duration OP time  ->  time OP' duration
                 kind = 'finish' if op in ('Ge', 'Gt', 'Le', 'Lt') else op
+                # `time < d` (not finished yet) is the same test as `time >= d` (finished) read from the other side: which
+                # edge finishes is what B.C06.finish / tweener-finish establish
+                op = {'Lt': 'Ge', 'Le': 'Gt'}.get(op, op)
                 bins.append((kind, op, 'duration.as_secs_f64'))
     f['arith'] = sorted(bins)
     # the Delayed arm subtracts from_secs_f64(dt)
@@ -652,11 +683,12 @@ def sib(F, R):
         ge = None
         for bb, desc, lab in p.decisions:
             _n, _a = parse_term(desc)
-            if _n == 'Le' and _a and len(_a) == 2 and 'as_secs_f64' in _a[0]:   # time >= duration
-                ge = bool_label(lab)
+            tr = time_reached(desc, lab)
+            if tr is not None:
+                ge = tr
         st = [s for x in p.blocks for s in b.blocks[x]['stmts'] if s['k'] == 'assign' and pretty_place(b, s['lhs']) == '(*self).value']
         if ge is True:
-            ok = len(st) == 1 and describe_rv(b, st[0]['rv']).endswith('.values.1')
+            ok = len(st) == 1 and describe_rv(b, st[0]['rv']).endswith(('.values.1', ' as Tweening).target'))
     R.check(ok, 'B.C06.sib', 'tweener-finish', 'the tweener does not land exactly on its target when time >= duration', detail='value = values.1')
 
 
